@@ -96,6 +96,16 @@ def scenarios():
         add('valid_against-raising-x-ok-' + cache, [C('valid_against_schema', 'sample-jsons/event_invalid.json', 'json/event.json', expect_failure=True),
                                                    C('valid_against_schema', 'sample-jsons/athlete.json', 'json/athlete.json')], False, cache)
         add('schema_valid-missing-file-x-ok-' + cache, [C('schema_valid', 'json/no-such-schema.json'), C('schema_valid', 'json/race.json')], False, cache)
+    # the same FAILING validation asked by two threads at once, nobody expecting the failure: both get False (whatever a failure
+    # stores besides the answer - a message, the error - must be complete before the entry can be seen)
+    for cache in ('empty', 'full'):
+        add('valid_against-same-failing-twice-' + cache,
+            [C('valid_against_schema', 'sample-jsons/race_invalid_position.json', 'json/race.json'),
+             C('valid_against_schema', 'sample-jsons/race_invalid_position.json', 'json/race.json')], False, cache)
+        add('schema_valid-same-failing-twice-' + cache, [C('schema_valid', 'json/athlete.json'), C('schema_valid', 'json/athlete.json')], False, cache)
+        add('valid_against-failing-x-failing-' + cache,
+            [C('valid_against_schema', 'sample-jsons/event_invalid.json', 'json/event.json'),
+             C('valid_against_schema', 'sample-jsons/athlete_invalid.json', 'json/athlete.json')], False, cache)
     # an answer already cached as False, asked again by a caller who expects the error, next to a miss that has to evict
     for cache in ('empty', 'full'):
         add('valid_against-expect-on-cached-false-x-miss-' + cache,
